@@ -209,7 +209,8 @@ theorem merge_spec {f : Forest} (w : f.W) {target src : Nat} {a b : Str} (v : St
 theorem removeConsolidate_spec {f : Forest} (w : f.W) (prev next : Option Nat) :
     (f.removeConsolidate prev next).1.W ∧
     ((f.removeConsolidate prev next).2 = false → (f.removeConsolidate prev next).1 = f) ∧
-    ∃ P, (∀ x ∈ P, next = some x ∧ (f.textOf x).isSome = true) ∧
+    ∃ P, (∀ x ∈ P, next = some x ∧ (f.textOf x).isSome = true ∧
+        (f.removeConsolidate prev next).2 = true ∧ ∃ p, prev = some p) ∧
       Frame f (f.removeConsolidate prev next).1 P (P ++ prev.toList) := by
   unfold removeConsolidate
   cases hc : f.consolidation with
